@@ -65,7 +65,7 @@ Special == {
       F("h:1", 2, 4, T_Uint16, 0, 0, 0, 0, "v4")>>,
     <<>> }
 
-MaxK == IF Thorough THEN 4 ELSE 3
+MaxK == IF Thorough THEN 5 ELSE 3
 SeqOfSet(menu, S) == [i \in 1..Cardinality(S) |-> menu[SetToSortSeq(S, <)[i]]]
 Lists(menu) == {SeqOfSet(menu, S) : S \in UNION {kSubset(k, DOMAIN menu) : k \in 1..MaxK}}
 \* reversed order variants (batching must not depend on input order)
